@@ -233,6 +233,12 @@ def case_skel(ctx, case):
             ctx.oracle(ok, f'navis round trip: parents {t["parents"]} expected {exp_par}; verts/radius equal: '
                            f'{t["verts"] == exp_verts}/{t["attrs"] == ([exp_rad] if radius else [])}', case, signature=sig)
             ctx.oracle(str(res[0].id) == str(n.id), f'id from file name: {res[0].id!r} != {n.id!r}', case)
+        # writer option write_info=False: same bytes, no info file
+        if case['seed'] % 5 == 0:
+            with Tmp() as d2:
+                navis.write_precomputed(n, str(d2), radius=radius, write_info=False)
+                ctx.oracle(sorted(p.name for p in d2.iterdir()) == [str(n.id)] and (d2 / str(n.id)).read_bytes() == raw,
+                           'write_precomputed(write_info=False) writes an info file or different bytes', case)
         # ---- (4) info file
         ctx.oracle(info.get('@type') == 'neuroglancer_skeletons', f'info @type = {info.get("@type")!r}', case)
         ctx.oracle((info.get('vertex_attributes') == [RADIUS_ATTR]) if radius else ('vertex_attributes' not in info),
@@ -488,6 +494,12 @@ def corrupt_bytes(r, raw, how, align=None):
     if how == 'misaligned':     # cut in the middle of an item: every decoder must reject
         ks = [k for k in range(1, len(raw)) if k % 4 in (1, 2, 3)]
         return raw[:r.choice(ks)]
+    if how == 'count_up':       # header announces more items than the file holds
+        if len(raw) < 8:
+            return raw[:3]
+        off = r.choice([0, 4])
+        v = struct.unpack('<I', raw[off:off + 4])[0] + r.randint(1, 3)
+        return raw[:off] + struct.pack('<I', v) + raw[off + 4:]
     if how == 'aligned':        # cut at an item boundary (see finding #16)
         ks = align or [k for k in range(8, len(raw)) if k % 4 == 0]
         return raw[:r.choice(ks)]
@@ -563,13 +575,13 @@ def case_batch(ctx, case):
             if j in bad:
                 how = case['how'][j % len(case['how'])]
                 if fmt in ('pre_skel', 'pre_mesh'):
-                    data = corrupt_bytes(r, content[fn], how)
+                    data = corrupt_bytes(r, content[fn], 'misaligned' if (how == 'count_up' and fmt == 'pre_mesh') else how)
                 else:
                     # text / container formats have no intrinsic notion of truncation: a file counts as corrupt only
                     # when the independent decoder rejects it; otherwise it is left untouched
                     data = content[fn]
                     for _ in range(6):
-                        cand = corrupt_bytes(r, content[fn], 'garbage' if how == 'aligned' else how)
+                        cand = corrupt_bytes(r, content[fn], 'garbage' if how in ('aligned', 'count_up') else how)
                         if not independent_ok(fmt, cand):
                             data = cand
                             break
@@ -717,11 +729,15 @@ def case_nrrd_vox(ctx, case):
     vx = navis.VoxelNeuron(g, units=units, id=case.get('nid', 11), name='vx')
     with Tmp() as d:
         fn = d / f'{vx.id}.nrrd'
-        st, e = outcome(lambda: navis.write_nrrd(vx, str(fn), compression_level=case.get('level', 3)))
+        attrs = {'space origin': [1.0, 2.0, 3.0]} if case['seed'] % 3 == 0 else None
+        st, e = outcome(lambda: navis.write_nrrd(vx, str(fn), compression_level=case.get('level', 3), attrs=attrs))
         if st == 'raise':
             ctx.oracle(False, f'write_nrrd raises {type(e).__name__}: {e}', case)
             return
         data, hdr = nrrd.read(str(fn))               # independent decoder
+        if attrs:
+            ctx.oracle(list(np.asarray(hdr.get('space origin', [])).reshape(-1)) == [1.0, 2.0, 3.0],
+                       f'write_nrrd(attrs=…): header lacks the extra field ({hdr.get("space origin")})', case)
         want = g.astype('uint8') if dt == 'bool' else g
         ctx.oracle(data.shape == want.shape and np.array_equal(data, want) and data.dtype == want.dtype,
                    f'independent NRRD decoder: voxel data differ (dtype {data.dtype} vs {want.dtype})', case)
@@ -903,6 +919,17 @@ def case_h5(ctx, case):
     ctx.count('h5_mode', f'ser={serialized},raw={raw},list={aslist}')
     with Tmp() as d:
         fp = str(d / 't.h5')
+        app = case.get('append')
+        if app is not None and len(neurons) > 1:
+            # two calls into the same file: append=True keeps the first neuron, append=False starts over
+            navis.write_h5(neurons[0][1], fp, serialized=True, raw=False)
+            rest = navis.NeuronList([n for _, n, _ in neurons[1:]])
+            st, e = outcome(lambda: navis.write_h5(rest, fp, serialized=True, raw=False, append=app))
+            st2, res = outcome(lambda: navis.read_h5(fp, read='mesh,skeleton,dotprops'))
+            want = [str(n.id) for _, n, _ in (neurons if app else neurons[1:])]
+            ctx.oracle(st == 'ok' and st2 == 'ok' and sorted(str(x.id) for x in res) == sorted(want),
+                       f'write_h5(append={app}) in two calls: file holds {None if st2 != "ok" else sorted(str(x.id) for x in res)}, expected {sorted(want)}', case)
+            return
         st, e = outcome(lambda: navis.write_h5(obj, fp, serialized=serialized, raw=raw,
                                                annotations=['connectors'] if (raw and use_conn) else None))
         if st == 'raise':
@@ -1100,62 +1127,70 @@ def gen_cases(ctx):
     yield 'batch', dict(fmt='pre_mesh', k=4, container='dir_sub', errors='ignore', bad=[3], how=['garbage'], pattern='name_id', seed=16)
     yield 'batch', dict(fmt='pre_skel', k=4, container='list', errors='log', bad=[1], how=['empty'], parallel=2, seed=17)
     # --- precomputed skeletons
-    for _ in range(ctx.budget(240, 600)):
+    for _ in range(ctx.budget(240, 1800)):
         n = r.choice([1, 2, 3, 5, 8, 13, 21, 40]) if ctx.quick() else r.choice([1, 2, 3, 5, 8, 21, 40, 120, 400])
         yield 'skel', dict(n=n, ids=r.choice(ID_CLASSES), radius=r.randint(0, 1), roots=r.choice([1, 1, 2, 4]),
                            shuffle=r.random() < 0.6, units=r.randrange(len(UNITS)) if r.random() < 0.5 else r.choice([0, 1, 2, 3]),
                            nid=r.choice([42, 7, 123456789]), seed=S())
-    for _ in range(ctx.budget(9, 20)):
+    for _ in range(ctx.budget(9, 60)):
         yield 'skel', dict(n=r.randint(3, 9), ids='huge', radius=r.randint(0, 1), seed=S())
-    for _ in range(ctx.budget(160, 400)):
+    for _ in range(ctx.budget(160, 1200)):
         na = r.choice([0, 1, 1, 2, 2, 3, 4])
         yield 'l2n', dict(n=r.choice([1, 2, 3, 6, 12, 30]), roots=r.choice([1, 2]), attrs=r.sample(range(len(ATTR_POOL)), na),
                           how=r.choice(['infofile', 'dict', 'bytes']), seed=S())
     # --- meshes
-    for _ in range(ctx.budget(100, 250)):
+    for _ in range(ctx.budget(100, 750)):
         yield 'mesh', dict(nv=r.randint(3, 14 if ctx.quick() else 60), nf=r.randint(1, 12 if ctx.quick() else 80),
                            manifest=r.random() < 0.3, nid=r.choice([7, 99]), seed=S())
     # --- truncation at every offset
-    for _ in range(ctx.budget(9, 25)):
+    for _ in range(ctx.budget(9, 75)):
         yield 'trunc_skel', dict(n=r.randint(1, 5), radius=r.randint(0, 1), seed=S())
-    for _ in range(ctx.budget(6, 15)):
+    for _ in range(ctx.budget(6, 45)):
         yield 'trunc_mesh', dict(nv=r.randint(3, 5), nf=r.randint(1, 3), seed=S())
     # --- batch reads
     fmts = ['pre_skel', 'pre_skel', 'pre_mesh'] + (['nrrd'] if nrrd else []) + (['obj', 'ply'] if trimesh else [])
-    for _ in range(ctx.budget(280, 700)):
+    for _ in range(ctx.budget(280, 2100)):
         k = r.randint(2, 6)
         nb = r.choice([0, 1, 1, 1, 2, k])
         yield 'batch', dict(fmt=r.choice(fmts), k=k, container=r.choice(['dir', 'dir', 'dir_sub', 'list', 'zip']),
                             errors=r.choice(['raise', 'log', 'ignore']), bad=sorted(r.sample(range(k), min(nb, k))),
-                            how=[r.choice(['misaligned', 'garbage', 'empty', 'misaligned', 'aligned'])],
+                            how=[r.choice(['misaligned', 'garbage', 'empty', 'misaligned', 'aligned', 'count_up'])],
                             pattern=r.choice(['id', 'name_id']),
                             parallel=(2 if r.random() < (0.02 if ctx.quick() else 0.1) else False), seed=S())
+    # exhaustive small scope: every subset of corrupted files × policy × container
+    for k in ((1, 2) if ctx.quick() else (1, 2, 3, 4)):
+        for mask in range(2 ** k):
+            for errors in ('raise', 'log', 'ignore'):
+                for container in ('dir', 'list', 'zip'):
+                    yield 'batch', dict(fmt='pre_skel', k=k, container=container, errors=errors,
+                                        bad=[i for i in range(k) if mask >> i & 1], how=['misaligned', 'empty', 'garbage'],
+                                        pattern='id', parallel=False, twice=False, seed=S())
     # --- NRRD
     if nrrd:
-        for _ in range(ctx.budget(120, 300)):
+        for _ in range(ctx.budget(120, 900)):
             yield 'nrrd_vox', dict(shape=[r.randint(1, 6), r.randint(1, 6), r.randint(1, 6)], dtype=r.choice(DTYPES),
                                    units=r.randrange(len(VOX_UNITS)), level=r.choice([1, 3, 9]), seed=S())
-        for _ in range(ctx.budget(40, 80)):
+        for _ in range(ctx.budget(40, 240)):
             yield 'nrrd_dp', dict(n=r.randint(5, 12), k=r.choice([2, 3, 5]), units=r.randrange(len(VOX_UNITS)), seed=S())
     # --- JSON
-    for _ in range(ctx.budget(80, 200)):
+    for _ in range(ctx.budget(80, 600)):
         yield 'json', dict(k=r.randint(1, 3), n=r.choice([3, 12, 30]), tofile=r.random() < 0.5, single=r.random() < 0.5, seed=S())
     # --- HDF5
     if h5py:
-        for _ in range(ctx.budget(100, 250)):
+        for _ in range(ctx.budget(100, 750)):
             ser, raw = r.choice([(True, False), (False, True), (True, True)])
             nk = r.choice([1, 1, 2, 3])
             yield 'h5', dict(serialized=ser, raw=raw, kinds=[r.choice(['skel', 'mesh', 'dp']) for _ in range(nk)],
                              aslist=r.random() < 0.4, units=r.randrange(len(H5_UNITS)), n=r.choice([3, 10]),
-                             connectors=r.random() < 0.4, seed=S())
-        for _ in range(ctx.budget(9, 20)):
+                             connectors=r.random() < 0.4, append=r.choice([None, None, None, True, False]), seed=S())
+        for _ in range(ctx.budget(9, 60)):
             k = r.randint(2, 4)
             yield 'h5_errors', dict(k=k, bad=r.randrange(k), seed=S())
     # --- mesh files
     if trimesh:
-        for _ in range(ctx.budget(80, 200)):
+        for _ in range(ctx.budget(80, 600)):
             yield 'meshfile', dict(ext=r.choice(['obj', 'ply', 'stl', 'off', 'glb']), nv=r.randint(3, 12), nf=r.randint(1, 10), seed=S())
-    for _ in range(ctx.budget(160, 400)):
+    for _ in range(ctx.budget(160, 1200)):
         yield 'fmt', gen_fmt_cases(r)
 
 
@@ -1178,9 +1213,12 @@ def run(ctx):
 
 
 def replay(ctx, rp):
-    case = rp['case']
-    ctx.case(case)
-    RUNNERS[case['kind']](ctx, case)
+    cases = [rp['case']] if 'case' in rp else [d['case'] for d in rp.get('correspondence_disagreements', []) if 'case' in d]
+    if not cases:   # a broken proof obligation without a failing input: re-run the corpus
+        cases = [dict(c, kind=k) for k, c in gen_cases(ctx)][:25]
+    for case in cases:
+        ctx.case(case)
+        RUNNERS[case['kind']](ctx, case)
 
 
 class _Probe:
